@@ -185,7 +185,8 @@ def float_fragment_full : Prop :=
 
 /-- A marshal model (bytes out, or failure) EMITS TREES when every successful output is the rendering — with the
 modelled AppendQuote — of a well-formed tree of fragments within the depth limit. -/
-def EmitsTree {Val : Type} (marshal : Opt → QFlags → Val → Option Bytes) : Prop :=
+def EmitsTree {Val : Type} (marshal : Opt → QFlags → Val → Option Bytes) :
+    Prop :=
   ∀ o f v out, marshal o f v = some out →
     ∃ t : OutTree, t.WellFormed o (realQuote f) ∧ t.depth ≤ o.maxDepth ∧ out = t.render (realQuote f)
 
